@@ -742,44 +742,33 @@ def check_types(
 
     sig = inspect.signature(wrapped)
 
-    def validate_args(
-        named_arguments: Dict[str, Any], arguments: Tuple[Any, ...]
-    ) -> List[Any]:
+    def validate_args(named_arguments: Dict[str, Any]) -> List[Any]:
         """
         Validates schemas of both explicit and *args-like function arguments.
 
         :param named_arguments: Bundled function arguments. Organized as key-value pairs of the
             argument name and value. *args-like arguments are bundled into a single tuple.
             Example: OrderedDict({'arg1': 1, 'arg2': 2, 'star_args': (3, 4, 5)})
-        :param arguments: Unpacked function arguments, as written in the function call.
-            Example: (1, 2, 3, 4, 5)
-        :return: List of validated function arguments.
+        :return: List of validated function arguments, unpacked as written
+            in the function call. Example: [1, 2, 3, 4, 5]
         """
 
-        # Check for an '*args'-like argument
-        if len(arguments) > len(named_arguments):
-            (
-                star_args_name,
-                star_args_values,
-            ) = named_arguments.popitem()  # *args is the last item
-
-            star_args_tuple = (
-                _check_arg(star_args_name, arg_value)
-                for arg_value in star_args_values
-            )
-
-            explicit_args_tuple = (
-                _check_arg(arg_name, arg_value)
-                for arg_name, arg_value in named_arguments.items()
-            )
-
-            return list((*explicit_args_tuple, *star_args_tuple))
-
-        else:
-            return list(
-                _check_arg(arg_name, arg_value)
-                for arg_name, arg_value in named_arguments.items()
-            )
+        # an '*args'-like argument is recognised by its kind in the
+        # signature: the number of values says nothing when it collects
+        # exactly one
+        validated = []
+        for arg_name, arg_value in named_arguments.items():
+            if (
+                sig.parameters[arg_name].kind
+                is inspect.Parameter.VAR_POSITIONAL
+            ):
+                validated.extend(
+                    _check_arg(arg_name, star_arg_value)
+                    for star_arg_value in arg_value
+                )
+            else:
+                validated.append(_check_arg(arg_name, arg_value))
+        return validated
 
     def validate_kwargs(
         named_kwargs: Dict[str, Any], kwargs: Dict[str, Any]
@@ -825,7 +814,7 @@ def check_types(
         args: Tuple[Any, ...],
         kwargs: Dict[str, Any],
     ) -> Tuple[List[Any], Dict[str, Any]]:
-        validated_pos = validate_args(sig.bind_partial(*args).arguments, args)
+        validated_pos = validate_args(sig.bind_partial(*args).arguments)
         validated_kwd = validate_kwargs(
             sig.bind_partial(**kwargs).arguments, kwargs
         )
